@@ -84,7 +84,7 @@ def eigh_jvp(ctx):
         lhs_s = strip_wrappers(lhs)
         rv = const_num(strip_wrappers(rep))
         if op == "==" and const_num(rhs) == 0.0:
-            if lhs_s is passed and rv is not None and rv != 0:
+            if (lhs_s is passed or lhs_s is core) and rv is not None and rv != 0:
                 has_zero = True
             else:
                 shape_ok = False
@@ -92,7 +92,7 @@ def eigh_jvp(ctx):
             ab = m_arrcall(lhs_s, "abs")
             inner = strip_wrappers(ab[0]) if ab else (strip_wrappers(call_parts(lhs_s)[1][0]) if lhs_s.op == "call"
                                                       and func_name(lhs_s) == "builtins.abs" else None)
-            if inner is passed and rv is not None and abs(rv) >= 1e6:
+            if (inner is passed or inner is core) and rv is not None and abs(rv) >= 1e6:
                 has_thr = True
                 thr_terms.append(strip_wrappers(rhs))
             else:
